@@ -113,7 +113,10 @@ def alphabet(init):
     if init["alpha"] == "target":
         # re-designation of a block's target between expansions (every solid of the fuel block, the clad of block 0)
         fb = [i for i in nd if S.kinds(init)[i] == "fuel"]
-        re_t = [["settarget", i, s_[0]] for i in fb for s_ in S.solids(init, "fuel")] + [["settarget", 0, "clad"]]
+        re_t = [["settarget", i, s_[0]] for i in fb for s_ in S.solids(init, "fuel")]
+        # (only where block 0 has a cladding: a grid-plate block has none, and naming a missing component is a
+        # harness error, not an expansion outcome)
+        re_t += [["settarget", 0, "clad"]] if _is_solid(init, 0, "clad") else []
         return [["presc", "fuel", "u11"], ["presc", "clad", "u11"], ["therm", "U550", 20]] + re_t
     if init["alpha"] == "tiny":
         ops = [["presc", "fuel", f] for f in ("p1e9", "m1e9", "p1e6", "m1e6", "p2e6", "p1e4", "m1e4")]
